@@ -303,6 +303,10 @@ def colebrook_white(re, d, k, lambda_nikuradse, max_iter, lengths, tolerance=1e-
     mask = ~np.isclose(re, 0) & ~np.isclose(lengths, 0, rtol=1e-10, atol=1e-11)
     lambda_res = lambda_nikuradse
 
+    if not np.any(mask):
+        # no branch with a length and a flow (e.g. a net of valves only): nothing to iterate
+        return True, lambda_res
+
     res = newton(colebrook_white_implicit, lambda_res[mask], maxiter=max_iter, args=(re[mask], k[mask], d[mask]),
                  tol=tolerance, full_output=True, fprime=cw_derivative)  # , fprime2=cw_derivative_2)
 
